@@ -546,7 +546,7 @@ def odd(s):
 def run(ctx):
     rng = ctx.rng
     scripts = family()
-    for _ in range(ctx.scale(120, 1500, 400)):
+    for _ in range(ctx.scale(300, 1500, 400)):
         s = gen_script(rng)
         if not odd(s):
             scripts.append(s)
